@@ -2,6 +2,7 @@
 import json
 
 CLAIMED = {
+    'C16': ('keysim', '3 (C16)', 'the cache key serialises attributes with marshal, whose bytes depend on reference counts and interning, i.e. on the process history of the dataset object, and the statement quantifies over processes: histories of copy / pickle / hold-references / gc / touch / load, non-geometry edits and single geometry edits over in-memory, file, reopened and time-split multi-file materialisations, plus fresh interpreters with other PYTHONHASHSEEDs reading the same files; history oracle over key events (equal within a geometry class, different across a geometry edit), with a diagnostic canonical key to attribute a moved key to its cause'),
     'C12': ('floorsim', '3 (C12)', 'ocean_floor processes depth dimensions in hash order (PYTHONHASHSEED-dependent); the simulator injects every processing order per world through the module-level hash seam and cross-checks sampled worlds in fresh interpreters with real hash seeds; worlds vary orientation, ordering, floor shape, dimension position, materialisation'),
     'C11': ('bindsim', '3 (C11)', 'histories of register / detect / access / construct+bind / bind again / copy (5 ways) / derive / mutate over a pool of valid, near-miss and marker datasets, across lifetimes whose entry-point environment (order, broken, non-class, duplicate entries) the simulator owns; a reference model is stepped op by op'),
     'C15': ('exportsim', '3 (C15)', 'geometry export as an acknowledged write: GeoJSON stream / 3-file shapefile / WKT / WKB to str, Path or caller handles, with failing open / k-th write / close, crash mid-write, ack-then-crash and retry; read back in another process by independent parsers and compared cell by cell with indexes'),
